@@ -26,3 +26,5 @@ def run(ctx):
     D.r12_6_options_forwarded(ctx)
     from . import round3 as R3
     R3.r12_7_source_independence(ctx)
+    from . import memo_rules as M
+    M.memo_sound(ctx, 'R12.M')
